@@ -126,6 +126,14 @@ impl SwiftField for Field61 {
         }
 
         let amount_str = &input[amount_start..pos];
+        if amount_str.len() > 15 {
+            return Err(ParseError::InvalidFormat {
+                message: format!(
+                    "Field 61 amount must not exceed 15 characters, found {}",
+                    amount_str.len()
+                ),
+            });
+        }
         let amount = parse_amount(amount_str)?;
 
         // Parse transaction type (4 characters: 1!a3!c)
